@@ -135,6 +135,15 @@ fn step(sys: &mut Sys, op: &Op, var_probes: &[String], fn_probes: &[String]) -> 
                 Op::EvalAssignVar(o, n, m) => (*o, n.clone(), Ast::Var(m.clone()), format!("{} {} {}", n, o.tok().text(), m)),
                 _ => unreachable!(),
             };
+            // `x op= y` with x and y both unbound: C04 reads it as `x = x op y` (x is missed first),
+            // C08 evaluates the operand y first; which of the two not-found errors is reported is
+            // C08's business, here either is accepted.
+            let either_unbound: Option<RR> = match op {
+                Op::EvalAssignVar(o, n, m2) if *o != AssignOp::Set && sys.model.get(n).is_none() && sys.model.get(m2).is_none() => {
+                    Some(Err(RE::VarNotFound(n.clone())))
+                },
+                _ => None,
+            };
             let ast = Ast::Assign(aop, name, Box::new(rhs_ast));
             let (m, _, _) = ref_run(&ast, &mut sys.model, true, matrix::unit());
             if let Err(e) = &m {
@@ -145,7 +154,7 @@ fn step(sys: &mut Sys, op: &Op, var_probes: &[String], fn_probes: &[String]) -> 
             }
             failed = m.is_err();
             let r = map_result(&evalexpr::eval_with_context_mut(&src, &mut sys.real));
-            if !outcome_matches(&m, &r) {
+            if !outcome_matches(&m, &r) && !either_unbound.map_or(false, |alt| outcome_matches(&alt, &r)) {
                 return Err((format!("result of `{}`", src), outcome_canon(&m), outcome_canon(&r)));
             }
         },
